@@ -4,6 +4,8 @@ CONSTANTS
   Spaces = {"cond", "signer", "attrs", "item", "manifest", "nef"}
   CondDepth = 3
   ItemDepth = 2
+  CSibs = {"BoolT", "Group"}
+  ISibs = {"Any", "Bytes"}
   MutFields = 1
   JMutNodes = 1
   Tags = {}
